@@ -805,8 +805,13 @@ class PyEval:
                 for p, a in zip(node.args.args, args):
                     ev.env[p.arg] = a
                 return ev.eval(node.body)
+            if tag == "closure":
+                _t, node, env = f
+                return self._run_function(node, PyEval(self.prog, self.mod, dict(env), self.budget), args, kwargs)
             if tag == "method":
                 raise NotConst(f"unbound method call {f}")
+        if callable(f) and not isinstance(f, (ClassRef, FuncRef, Term)):
+            return f(*args, **kwargs)   # analysis-supplied abstract transfer function
         raise NotConst(f"call of non-constant callee {f!r} at {self.mod.rel}:{ln}")
 
     def _name_positional(self, cref: ClassRef, args: list, kwargs: dict) -> dict:
@@ -841,7 +846,10 @@ class PyEval:
             dn = d.id if isinstance(d, ast.Name) else getattr(d, "attr", "")
             if dn not in ("staticmethod", "lru_cache", "cache"):
                 raise NotConst(f"decorated function {f.name}")
-        ev = PyEval(self.prog, mod, {}, self.budget)
+        return self._run_function(node, PyEval(self.prog, mod, {}, self.budget), args, kwargs)
+
+    def _run_function(self, node: ast.FunctionDef, ev: "PyEval", args: list, kwargs: dict) -> Any:
+        f = node
         a = node.args
         params = [p.arg for p in a.posonlyargs + a.args]
         defaults = a.defaults
@@ -853,7 +861,7 @@ class PyEval:
             else:
                 di = i - (len(params) - len(defaults))
                 if di < 0:
-                    raise NotConst(f"missing argument {p} for {f.name}")
+                    raise NotConst(f"missing argument {p} for {node.name}")
                 ev.env[p] = ev.eval(defaults[di])
         for p, dflt in zip(a.kwonlyargs, a.kw_defaults):
             ev.env[p.arg] = kwargs[p.arg] if p.arg in kwargs else (ev.eval(dflt) if dflt else None)
@@ -935,7 +943,9 @@ class PyEval:
         elif isinstance(st, ast.Assert):
             if not self.eval(st.test):
                 raise NotConst(f"folded helper assertion fails at {self.mod.rel}:{st.lineno}")
-        elif isinstance(st, (ast.FunctionDef, ast.ClassDef, ast.Import, ast.ImportFrom)):
+        elif isinstance(st, ast.FunctionDef):
+            self.env[st.name] = ("closure", st, self.env)
+        elif isinstance(st, (ast.ClassDef, ast.Import, ast.ImportFrom)):
             return
         else:
             raise NotConst(f"unsupported statement {type(st).__name__} at {self.mod.rel}:{st.lineno}")
